@@ -550,3 +550,8 @@ Proof. vm_compute. reflexivity. Qed.
 Corollary listing_leaves_perm_current env p : prog_ok env p ->
   Permutation (map e_leaf (listing env (run_prog env p))) (prog_leaves p).
 Proof. apply listing_leaves_perm_table. exact current_table_faithful. Qed.
+
+(* the depth limit used by the model is the constant read from the source by the translator (Gen/Flags.v) *)
+From Gen Require Flags.
+Lemma max_graph_depth_from_source : Flags.MAX_GRAPH_DEPTH = Core.Model.MAX_GRAPH_DEPTH.
+Proof. reflexivity. Qed.
